@@ -139,9 +139,9 @@ def fin(r, case, interesting):
 
 
 def kernel_script(bs):
-    send_tok = st.one_of(st.tuples(st.just("accept"), st.integers(1, 3 * bs)), st.tuples(st.just("block")),
+    send_tok = st.one_of(st.tuples(st.just("accept"), st.integers(1, 3 * bs)), st.tuples(st.just("block")), st.tuples(st.just("block-x")),
                          st.tuples(st.just("accept"), st.integers(1, 4))).map(list)
-    recv_tok = st.one_of(st.tuples(st.just("short"), st.integers(1, bs)), st.tuples(st.just("block")),
+    recv_tok = st.one_of(st.tuples(st.just("short"), st.integers(1, bs)), st.tuples(st.just("block")), st.tuples(st.just("block-x")),
                          st.tuples(st.just("short"), st.integers(1, 3))).map(list)
     return st.fixed_dictionaries({"a_send": st.lists(send_tok, max_size=12), "a_recv": st.lists(recv_tok, max_size=12),
                                   "b_send": st.lists(send_tok, max_size=12), "b_recv": st.lists(recv_tok, max_size=12)})
